@@ -30,11 +30,12 @@ func (c02) Exhaustive(tier string) bool { return true }
 func (c02) Batches(tier string, seed uint64) []core.Batch {
 	b := spread("triples", 16, 0)
 	b = append(b, spread("sort", 8, tierN(tier, 40, 400))...)
+	b = append(b, core.Batch{Name: "volume", N: tierN(tier, 1_000_000, 12_000_000)}) // one case, one process: see volume.go
 	return append(b, conc(tierN(tier, 6, 40), "sort")...)
 }
 
 func (c02) Mandatory(tier string) []string {
-	m := []string{"equiv-textually-different-pair", "sorted-slices", "sort-equivalent-runs"}
+	m := []string{"equiv-textually-different-pair", "sorted-slices", "sort-equivalent-runs", "volume:pairs-compared-in-one-process"}
 	for _, a := range []int{-1, 0, 1} {
 		for _, b := range []int{-1, 0, 1} {
 			for _, c := range []int{-1, 0, 1} {
@@ -119,6 +120,10 @@ func (p c02) RunBatch(t *core.T, b core.Batch) {
 		return
 	}
 	switch b.Name {
+	case "volume":
+		in := volInput(t.Rand("volume").U64(), b.N)
+		vc, _ := volDecode(in)
+		t.Case("volume", in, func(c *core.C) { volumeCompare(c, t, vc, false) })
 	case "triples":
 		pool := c02Pool(t.Tier, t.Seed)
 		K := len(pool)
@@ -291,6 +296,10 @@ func bucket(n int) int {
 
 func (p c02) RunCase(t *core.T, kind string, input []byte) {
 	switch kind {
+	case "volume":
+		if vc, ok := volDecode(input); ok {
+			t.Case(kind, input, func(c *core.C) { volumeCompare(c, t, vc, false) })
+		}
 	case "triple":
 		parts := strings.Split(string(input), "\x1e")
 		if len(parts) != 3 {
